@@ -36,8 +36,8 @@ type WTScen struct {
 	FailKind   string    `json:"failKind,omitempty"`
 	FailOnce   bool      `json:"failOnce,omitempty"`  // the stream error is transient (a deadline): the stream itself goes on afterwards
 	StaleRead  bool      `json:"staleRead,omitempty"` // after moving on to the next message the application reads the previous message's reader again
-	EOF        bool      `json:"eof"`               // the stream ends after its bytes (else the reader is stopped by the harness)
-	Consume    []int     `json:"consume,omitempty"` // per message: -1 read all, k>=0 read at most k bytes then move on
+	EOF        bool      `json:"eof"`                 // the stream ends after its bytes (else the reader is stopped by the harness)
+	Consume    []int     `json:"consume,omitempty"`   // per message: -1 read all, k>=0 read at most k bytes then move on
 	ReadChunk  int       `json:"readChunk,omitempty"`
 	ExtraReads int       `json:"extraReads,omitempty"` // NextReader calls after the first error (sticky-error clause)
 	Expect     []WTExp   `json:"expect,omitempty"`     // dec: the messages the stream encodes
